@@ -17,9 +17,11 @@ PROPS = {
     "C10": "c10_stream",
     "C11": "c11_scan",
     "C12": "c12_modes",
+    "C13": "c13_macros",
     "C15": "c15_binary",
     "C16": "c16_presentation",
     "C18": "c18_addr_range",
+    "C19": "c19_unresolved",
 }
 
 
